@@ -31,6 +31,6 @@ theorem safe64MulDiv_exact (x y d : Int) (hx : IntTy.u64.InRange x) (hy : IntTy.
         have := Int.mul_le_mul_of_nonneg_left h1 (show (0 : Int) ≤ 18446744073709551616 by decide)
         omega
       have hin : (0 ≤ p / d ∧ p / d < 18446744073709551616) := ⟨hq0, hlt⟩
-      simp only [hle, decide_false, Bool.false_eq_true, if_false, hd0, false_or, hrecomb, if_pos hin]
+      simp only [hle, decide_false, Bool.false_eq_true, if_false, false_or, hrecomb, if_pos hin]
 
 end Hive.GoInt
